@@ -151,10 +151,63 @@ def _expand(fi, call, mode, caller_names=frozenset()):
     return stmts, ret
 
 
+def _expression_helper(fi):
+    """helper whose body is `return <expr>` (after a docstring): usable inside expressions"""
+    if inlinable(fi) is None:
+        return None
+    body = [s for s in fi.node.body if not (isinstance(s, ast.Expr) and isinstance(s.value, ast.Constant))]
+    if len(body) == 1 and isinstance(body[0], ast.Return) and body[0].value is not None and not _has(body[0].value, (ast.Lambda, ast.NamedExpr)):
+        return body[0].value
+    return None
+
+
+class _ExprInline(ast.NodeTransformer):
+    def __init__(self, mi, caller, cands, done):
+        self.mi, self.caller, self.cands, self.done = mi, caller, cands, done
+
+    def visit_Call(self, n):
+        self.generic_visit(n)
+        f = n.func
+        fi = None
+        if isinstance(f, ast.Name):
+            fi = self.mi.funcs.get(f.id)
+        elif isinstance(f, ast.Attribute) and isinstance(f.value, ast.Name) and self.caller.cls is not None and f.value.id in ("self", "cls", self.caller.cls.name):
+            fi = self.caller.cls.methods.get(f.attr)
+        if fi is None or fi.qname not in self.cands or fi is self.caller:
+            return n
+        expr = self.cands[fi.qname]
+        params = [a.arg for a in fi.node.args.args]
+        if fi.cls is not None and not fi.is_static and params and params[0] in ("self", "cls"):
+            params = params[1:]
+        if n.keywords or len(n.args) != len(params) or any(isinstance(a, ast.Starred) for a in n.args):
+            return n
+        mapping = dict(zip(params, n.args))
+        new = _Subst(mapping, {}).visit(ast.parse(ast.unparse(expr), mode="eval").body)
+        ast.copy_location(new, n)
+        for x in ast.walk(new):
+            if not hasattr(x, "lineno"):
+                ast.copy_location(x, n)
+        self.done.append((self.caller.qname, fi.qname))
+        return new
+
+
 def inline_new_helpers(prog):
     """rewrite function bodies in place; returns the list of (caller, helper) expansions performed"""
     known = known_functions()
     done = []
+    # (0) pure expression helpers are substituted wherever they are called
+    for mi in list(prog.modules.values()):
+        ecands = {}
+        for fi in prog.funcs.values():
+            if fi.mod is mi and fi.qname not in known:
+                e = _expression_helper(fi)
+                if e is not None:
+                    ecands[fi.qname] = e
+        if ecands:
+            for caller in [f for f in prog.funcs.values() if f.mod is mi and f.qname not in ecands]:
+                tr = _ExprInline(mi, caller, ecands, done)
+                caller.node.body = [tr.visit(st) for st in caller.node.body]
+                ast.fix_missing_locations(caller.node)
     for mi in list(prog.modules.values()):
         cands = {}
         for fi in prog.funcs.values():
